@@ -2,6 +2,7 @@
 // cppcms::thread_pool job runs exactly once. Unique ids, one loop thread, k producer threads, offline checker.
 // Lost handlers are decided by ordering (sentinels), not by waiting.
 #include "common/vh.h"
+#include <algorithm>
 #include <booster/aio/io_service.h>
 #include <booster/aio/reactor.h>
 #include <booster/aio/deadline_timer.h>
@@ -42,7 +43,7 @@ extern "C" void cppcms_verif_yield(char const *site)
 
 enum kind_t { K_POST, K_POST_EV, K_TIMER_FIRE, K_TIMER_CANCEL, K_TIMER_RACE, K_IO_READ, K_IO_WRITE, K_IO_CANCEL, K_IO_RACE, K_IO_CLOSE };
 static char const *KN[] = { "post", "post_event", "timer_fire", "timer_cancel_far", "timer_cancel_race", "io_readable", "io_writeable", "io_cancel", "io_cancel_race", "io_close" };
-struct reg { int kind; double deadline; bool cancel_called; int fd; };
+struct reg { int kind; double deadline; bool cancel_called; int fd; bool starved = false; };
 struct run { long id; int err; std::string cat; double at; std::thread::id tid; };
 
 struct logbook {
@@ -124,9 +125,34 @@ static void loop_scenario(rng &r0, int reactor, int producers, int actions, std:
 				int fd = sp[i][0];
 				// drain what earlier rounds wrote
 				char buf[16]; while (read(fd, buf, sizeof buf) > 0) {}
+#ifdef __SANITIZE_THREAD__
+				// not under ThreadSanitizer: it models descriptor numbers as memory and reports close() in one thread against the queued
+				// epoll_ctl of the cancellation in the loop thread - which is how basic_io_device::close() works (cancel is queued, ::close
+				// is immediate) and is harmless by queue order (the cancellation runs before any request for the reused number)
 				int what = r.below(10);
+#else
+				int what = r.below(11);
+#endif
 				done[i] = 0;
-				if (what < 4) { long id = lb.add(K_IO_READ, 0); lb.set_fd(id, fd); pending_id[i] = id; ev_handler h = { &lb, id, &done[i] }; srv.set_io_event(fd, aio::io_events::in, h); if (r.chance(1, 2)) usleep(r.below(300)); if (write(sp[i][1], "x", 1) != 1) {} }
+				if (what == 10) {
+					// close with a wait pending, from this (non-loop) thread, and take the descriptor numbers again at once - what a server
+					// does when one connection goes and the next is accepted: the old wait hears the cancellation, the new one its event
+					long oid = lb.add(K_IO_CLOSE, 0); lb.set_fd(oid, fd);     // closed first: any cancellation / error code, never success
+					{ ev_handler h = { &lb, oid, 0 }; srv.set_io_event(fd, aio::io_events::in, h); }
+					if (r.chance(1, 2)) usleep(r.below(300));
+					{ std::lock_guard<std::mutex> g(fdm); for (int e = 0; e < 2; e++) all_fds.erase(std::remove(all_fds.begin(), all_fds.end(), sp[i][e]), all_fds.end()); }
+					lb.mark_cancel(oid);
+					srv.cancel_io_events(fd); close(sp[i][0]);               // basic_io_device::close(): cancel (queued when the loop polls), then ::close at once
+					close(sp[i][1]);
+					if (socketpair(AF_UNIX, SOCK_STREAM, 0, sp[i])) { perror("socketpair"); exit(3); }
+					fcntl(sp[i][0], F_SETFL, O_NONBLOCK);
+					{ std::lock_guard<std::mutex> g(fdm); all_fds.push_back(sp[i][0]); all_fds.push_back(sp[i][1]); }
+					fd = sp[i][0];
+					long id = lb.add(K_IO_READ, 0); lb.set_fd(id, fd); pending_id[i] = id; ev_handler h = { &lb, id, &done[i] }; srv.set_io_event(fd, aio::io_events::in, h);
+					if (write(sp[i][1], "n", 1) != 1) {}
+					O().count("descriptors_closed_with_a_pending_wait_and_reopened");
+				}
+				else if (what < 4) { long id = lb.add(K_IO_READ, 0); lb.set_fd(id, fd); pending_id[i] = id; ev_handler h = { &lb, id, &done[i] }; srv.set_io_event(fd, aio::io_events::in, h); if (r.chance(1, 2)) usleep(r.below(300)); if (write(sp[i][1], "x", 1) != 1) {} }
 				else if (what < 6) { long id = lb.add(K_IO_WRITE, 0); lb.set_fd(id, fd); pending_id[i] = id; ev_handler h = { &lb, id, &done[i] }; srv.set_io_event(fd, aio::io_events::out, h); }
 				else if (what < 8) { long id = lb.add(K_IO_CANCEL, 0); lb.set_fd(id, fd); pending_id[i] = id; ev_handler h = { &lb, id, &done[i] }; srv.set_io_event(fd, aio::io_events::in, h); if (r.chance(1, 2)) usleep(r.below(300)); lb.mark_cancel(id); srv.cancel_io_events(fd); }
 				else { long id = lb.add(K_IO_RACE, 0); lb.set_fd(id, fd); pending_id[i] = id; ev_handler h = { &lb, id, &done[i] }; srv.set_io_event(fd, aio::io_events::in, h); if (write(sp[i][1], "y", 1) != 1) {} if (r.chance(1, 2)) usleep(r.below(200)); lb.mark_cancel(id); srv.cancel_io_events(fd); }
@@ -136,6 +162,14 @@ static void loop_scenario(rng &r0, int reactor, int producers, int actions, std:
 		}
 		for (auto const &ft : far_timers) { lb.mark_cancel(ft.second); srv.cancel_timer_event(ft.first); }
 		// quiesce this producer's descriptors: cancel whatever is still armed (enqueues the cancellation before the sentinels)
+		// ... but a wait whose event HAS happened (a byte was written for a readable wait, a socket pair is writable) is first given
+		// its chance: bounded progress, 10 s for microseconds of work. Cancelling it at once would excuse a readiness that is never reported.
+		for (int i = 0; i < NP; i++) if (!done[i].load() && pending_id[i] >= 0) {
+			int kind; { std::lock_guard<std::mutex> g(lb.m); kind = lb.regs[pending_id[i]].kind; }
+			if (kind != K_IO_READ && kind != K_IO_WRITE) continue;
+			for (int w = 0; w < 100000 && !done[i].load(); w++) usleep(100);
+			if (!done[i].load()) { std::lock_guard<std::mutex> g(lb.m); lb.regs[pending_id[i]].starved = true; }
+		}
 		for (int i = 0; i < NP; i++) if (!done[i].load()) { if (pending_id[i] >= 0) lb.mark_cancel(pending_id[i]); srv.cancel_io_events(sp[i][0]); }
 	}));
 	for (auto &t : th) t.join();
@@ -181,7 +215,12 @@ static void loop_scenario(rng &r0, int reactor, int producers, int actions, std:
 		std::string rp = "{\"reactor\":\"" + rname + "\",\"kind\":\"" + KN[g.kind] + "\",\"id\":" + std::to_string(id) + ",\"producers\":" + std::to_string(producers) + "}";
 		O().count("handlers_registered");
 		O().count(std::string("registered_") + KN[g.kind]);
-		if (count[id] == 0) { O().viol(std::string("aio:handler-never-ran:") + KN[g.kind], rname + " (sentinels posted after it have run)", rp); continue; }
+		if (count[id] == 0) {
+			std::string hist; int shown = 0;
+			for (long q = (long)id - 1; q >= 0 && shown < 3; q--) if (lb.regs[q].fd == g.fd && g.fd >= 0) { hist = std::string(KN[lb.regs[q].kind]) + "(" + (first[q] ? std::to_string(first[q]->err) : "norun") + ") " + hist; shown++; }
+			hist += "| THIS |"; shown = 0;
+			for (size_t q = id + 1; q < lb.regs.size() && shown < 3; q++) if (lb.regs[q].fd == g.fd && g.fd >= 0) { hist += std::string(" ") + KN[lb.regs[q].kind] + "(" + (first[q] ? std::to_string(first[q]->err) : "norun") + ")"; shown++; }
+			O().viol(std::string("aio:handler-never-ran:") + KN[g.kind], rname + " (sentinels posted after it have run); waits on the same descriptor number around it: " + hist, rp); continue; }
 		if (count[id] > 1) { O().viol(std::string("aio:handler-ran-more-than-once:") + KN[g.kind], rname + " x" + std::to_string(count[id]), rp); continue; }
 		run const &x = *first[id];
 		if (x.tid != loop_tid) O().viol("aio:handler-ran-off-the-loop-thread", KN[g.kind], rp);
@@ -198,12 +237,14 @@ static void loop_scenario(rng &r0, int reactor, int producers, int actions, std:
 		case K_TIMER_CANCEL: if (!canceled) O().viol("aio:cancelled-far-timer-did-not-deliver-canceled", rname + " err=" + std::to_string(x.err), rp); break;
 		case K_TIMER_RACE: if (!success && !canceled) O().viol("aio:timer-delivered-error", rname, rp); else if (success && x.at + 1e-6 < g.deadline) O().viol("aio:timer-fired-before-its-deadline", rname, rp); break;
 		case K_IO_READ: case K_IO_WRITE:
+			if (g.starved) { O().viol("aio:ready-descriptor-never-reported", rname + ": the descriptor was " + (g.kind == K_IO_READ ? "readable" : "writable") + " for 10 s and its wait was not completed", rp); break; }
 			if (!success) { if (!canceled) O().viol("aio:io-wait-delivered-error", rname + " err=" + std::to_string(x.err), rp); else if (!g.cancel_called) {
 				std::string hist; int shown = 0;
 				for (long q = (long)id - 1; q >= 0 && shown < 4; q--) if (lb.regs[q].fd == g.fd) { hist = std::string(KN[lb.regs[q].kind]) + "(" + (first[q] ? std::to_string(first[q]->err) : "norun") + ") " + hist; shown++; }
 				O().viol("aio:io-wait-nobody-cancelled-delivered-canceled", rname + " earlier waits on this descriptor: " + hist, rp); } }
 			break;
 		case K_IO_CANCEL: case K_IO_RACE: if (!success && !canceled) O().viol("aio:io-wait-delivered-error", rname + " err=" + std::to_string(x.err), rp); break;
+		case K_IO_CLOSE: if (success) O().viol("aio:closed-descriptor-wait-delivered-success:number-reused-from-another-thread", rname + ": a wait armed, cancelled and its descriptor closed by a producer thread before anything happened on it got success - the readiness of the socket the same thread opened next under the same number", rp); break;
 		}
 	}
 	for (int k = 0; k < 10; k++) { if (outcomes[k][0]) O().count(std::string("outcome_") + KN[k] + "_success", outcomes[k][0]); if (outcomes[k][1]) O().count(std::string("outcome_") + KN[k] + "_canceled", outcomes[k][1]); }
